@@ -297,10 +297,13 @@ def oracle_lanczos(ctx, case, r):
     well = N <= dK       # beyond the exact Krylov dimension only rounding noise is added (N_min forces it, or the cutoff missed it)
     tol = cond_tol(scale, ratios, N)
     full_reortho = bool(opts.get('reortho') and (opts.get('N_cache') or opts['N_max']) >= N)
-    if well and N > 2 and not full_reortho:
-        # orthogonality the plain three-term recurrence can keep on this input in double precision (outliers of the spectrum converge early and
-        # destroy it): widens the tolerances; beyond 1e-4 only the bookkeeping is checked
-        loss = XT.plain_lanczos_loss(Ms, v0s, N)
+    if well and N > 2:
+        # orthogonality the textbook recurrence can keep on this input in double precision: three-term recurrence (outliers of the spectrum
+        # converge early and destroy it) / with reortho one pass of Gram-Schmidt against the cached vectors (errors grow by |H| / beta per step);
+        # widens the tolerances; beyond 1e-4 only the bookkeeping is checked
+        loss = 0.0 if full_reortho else XT.plain_lanczos_loss(Ms, v0s, N)
+        if opts.get('reortho'):
+            loss = max(loss, XT.plain_arnoldi_loss(Ms, v0s, N))
         extra['orth_loss'] = loss
         tol = max(tol, 10 * scale * loss)
         if loss > 1e-4:
@@ -546,7 +549,7 @@ def oracle_gmres(ctx, case, r):
         bad = [i for i, e in enumerate(flat) if not np.isfinite(e)]
         msg = 'GMRES returns non-finite numbers: residual %s, error history %s...' % (r['res'], flat[:6])
         if bad and bad[0] > 0 and flat[bad[0] - 1] <= 1e-14 * max(1.0, flat[0]):
-            return [], ['NAN ' + msg], {'true': true}        # see oracle_gmres_restart
+            return [], ['NAN ' + nan_tag(r['total_error']) + msg], {'true': true}        # see oracle_gmres_restart
         return [msg], [], {'true': true}
     if abs(true - r['res']) > 1e-10 * max(1.0, true):
         probs.append('reported residual %.6e, actual |Ax-b|/|b| = %.6e' % (r['res'], true))
@@ -566,6 +569,20 @@ def oracle_gmres(ctx, case, r):
             else:
                 probs.append(msg)
     return probs, known, {'true': true}
+
+
+def nan_tag(te):
+    """GMRES produced NaN after the residual estimate reached the rounding level: 'EXACT ' when the last finite estimate is <= eps * (residual
+    at the start of the cycle) - the stop rule of the code must have fired (fixed finding F16.6) - and 'ROUND ' when it is a few eps above"""
+    for t in te:
+        bad = [i for i, e in enumerate(t) if not np.isfinite(e)]
+        if bad and bad[0] > 0:
+            return 'EXACT ' if t[bad[0] - 1] <= EPS * t[0] else 'ROUND '
+    return 'EXACT '
+
+
+NAN_KEYS = {'EXACT ': 'C16:GMRES:residual-exactly-zero-before-N_min:NaN',
+            'ROUND ': 'C16:GMRES:Krylov-space-exhausted:estimate-few-eps-above-the-stop-threshold:NaN'}
 
 
 def dense_krylov_basis(As, r0, kmax):
@@ -617,11 +634,16 @@ def oracle_gmres_restart(ctx, case, r):
             return ['correspondence'], [], info
     x = G.dec(pl['x'])
     te, iters = pl['total_error'], pl['iters']
+    # Arnoldi steps (cycle, k) after which the new Krylov vector was exactly zero: the space is exhausted whatever the estimate says
+    bdown = set((int(a), int(b)) for a, b in tr.get('breakdown', []))
     flat = [e for t in te for e in t]
     if np.all(np.isfinite(flat)) and len(te) >= len(iters) and all(len(t) >= k + 1 for t, k in zip(te, iters)):
         # input of Model/KrylovGmres.v: which estimates were below the tolerance; the model predicts events and total_iters
         info['coq'] = (Nat(N_min), Nat(N_max), Nat(restart), bool(te[0][0] < res),
-                       [[(bool(te[c][j + 1] < res), bool(te[c][j + 1] <= EPS * te[c][0])) for j in range(k)] for c, k in enumerate(iters)],
+                       [[(bool(te[c][j + 1] < res), bool(te[c][j + 1] <= EPS * te[c][0] or
+                                                         # (a stop at a breakdown step counts as `exhausted`; the code of F16.12 goes on there)
+                                                         ((c, j) in bdown and j == k - 1 and c == len(iters) - 1 and len(te) == len(iters))))
+                         for j in range(k)] for c, k in enumerate(iters)],
                        [tuple(Nat(v) for v in e) for e in tr['events']], [Nat(k) for k in iters])
     if not (np.all(np.isfinite(flat)) and np.all(np.isfinite(x)) and np.isfinite(pl['res'])):
         bad = [i for i, e in enumerate(flat) if not np.isfinite(e)]
@@ -629,7 +651,7 @@ def oracle_gmres_restart(ctx, case, r):
         if bad and bad[0] > 0 and flat[bad[0] - 1] <= 1e-14 * max(1.0, flat[0]):
             # the residual became exactly 0 / rounding noise (Krylov space exhausted) while N_min (or N_max without the
             # convergence flag) forces another iteration: 0/0 in the Givens rotation / in the normalisation of the restart vector
-            return [], [msg], info
+            return [], [nan_tag(te) + msg], info
         return [msg], [], info
     if np.linalg.norm(np.delete(x, I)) > 0 or not pl['qtotal_ok']:
         probs.append('solution leaves the charge sector of b')
@@ -670,13 +692,18 @@ def oracle_gmres_restart(ctx, case, r):
     for c, k in enumerate(iters):
         # stop rule: the first iteration j (Arnoldi step j-1) whose estimate is below res and that is either a step >= N_min or has
         # exhausted the Krylov space (estimate at the rounding level eps * residual at the start of the cycle: nothing is left to iterate on)
-        hit = [j for j in range(1, k + 1) if te[c][j] < res and (j - 1 >= N_min or te[c][j] <= EPS * te[c][0])]
+        hit = [j for j in range(1, k + 1) if te[c][j] < res and (j - 1 >= N_min or te[c][j] <= EPS * te[c][0] or (c, j - 1) in bdown)]
         last = c == len(iters) - 1
         if not 1 <= k <= N_max:
             probs.append('cycle %d: %d iterations with N_max=%d' % (c, k, N_max))
         elif hit and (hit[0] != k or not last or not converged):
-            probs.append('cycle %d: estimate %.3e < res at iteration %d (N_min+1 = %d, rounding level %.3e) but GMRES went on'
-                         % (c, te[c][hit[0]], hit[0], N_min + 1, EPS * te[c][0]))
+            msg = ('cycle %d: estimate %.3e < res at iteration %d (N_min+1 = %d, rounding level %.3e) but GMRES went on'
+                   % (c, te[c][hit[0]], hit[0], N_min + 1, EPS * te[c][0]))
+            if hit[0] - 1 < N_min and not te[c][hit[0]] <= EPS * te[c][0]:
+                # only the breakdown (new Krylov vector = rounding noise) says that the space is exhausted: the code iterates on noise
+                return [], ['ROUND ' + msg + ' after the Krylov space was exhausted (new Krylov vector below 1e-14 |A q|); returned residual %.3e'
+                            % pl['res']], info
+            probs.append(msg)
         elif not hit and (k != N_max or (last and converged)):
             probs.append('cycle %d stopped after %d iterations (N_max=%d, N_min+1=%d) although no estimate below res=%g came from an iteration '
                          '>= N_min+1 or reached the rounding level %.3e: estimates %s' % (c, k, N_max, N_min + 1, res, EPS * te[c][0], te[c][1:][-3:]))
@@ -946,6 +973,7 @@ TRACE_HOW = set()
 
 def main(ctx):
     rng = ctx.rng
+    np.seterr(all='ignore')        # (overflowing exp(delta h) of real exponents is compared as non-finite, not warned about)
     ctx.proof = common.check_proofs('C16')
     mult = 1 if ctx.proof.ok else 3
     base = ctx.seed * 1000000
@@ -1065,6 +1093,9 @@ def main(ctx):
                       sample={k: case[k] for k in ('charge_sector', 'which', 'num_ev', 'v0', 'herm_cls', 'use_setter')})
             if probs:
                 ctx.fail('oracle', 'FlatLinearOperator.eigenvectors: ' + '; '.join(probs[:4]), {'stream': stream, 'case': case}, match_key='C16:flateig')
+            if info.get('known'):
+                ctx.fail('oracle', info['known'], {'stream': stream, 'case': case},
+                         match_key='C16:FlatLinearOperator:vec_label=None:charge_sector=None:KeyError')
         elif kind == 'arpack':
             if 'ArpackNoConvergence' in r.get('error', '') or 'ncv must be' in r.get('error', ''):
                 # ARPACK did not converge with the small ncv = N_min (the retry of eigenvectors() with more eigenvalues needs a larger ncv)
@@ -1081,8 +1112,7 @@ def main(ctx):
             if probs:
                 ctx.fail('oracle', 'GMRES: ' + '; '.join(probs[:4]), {'stream': stream, 'case': case}, match_key='C16:gmres')
             if known and known[0].startswith('NAN '):
-                ctx.fail('oracle', known[0][4:], {'stream': stream, 'case': case},
-                         match_key='C16:GMRES:residual-exactly-zero-before-N_min:NaN')
+                ctx.fail('oracle', known[0][10:], {'stream': stream, 'case': case}, match_key=NAN_KEYS[known[0][4:10]])
             elif known:
                 ctx.fail('oracle', 'GMRES (complex operator): ' + known[0], {'stream': stream, 'case': case},
                          match_key='C16:GMRES:complex-operator:residual-estimate')
@@ -1109,8 +1139,7 @@ def main(ctx):
                                                                       'impl': {'iters': r['plain']['iters'], 'res': r['plain']['res']}},
                          match_key='C16:gmres-restart')
             for kn in known:
-                ctx.fail('oracle', kn, {'stream': stream, 'case': case},
-                         match_key='C16:GMRES:residual-exactly-zero-before-N_min:NaN')
+                ctx.fail('oracle', kn[6:], {'stream': stream, 'case': case}, match_key=NAN_KEYS[kn[:6]])
         elif kind == 'gs':
             probs, info = oracle_gs(ctx, case, r)
             ctx.count(stream, [case['spec']['seed'], case['count'], case['dependent']], nontrivial=info['k'] > 1,
@@ -1236,7 +1265,7 @@ def forced_cases(seed):
                  'opts': {'N_min': 2, 'N_max': 4, 'which': 'SR', 'num_ev': 2, 'E_shift': -1.5, 'P_tol': None, 'cutoff': None, 'E_tol': None,
                           'min_gap': None, 'reortho': None}}
             if evo:
-                c['evo'] = {'deltas': [[0.0, 0.5], [0.1, 0.0], [0.3, -0.2]], 'normalize': None, 'delta_as': 'complex', 'normalize_kw': True}
+                c['evo'] = {'deltas': [[0.0, 0.5], [0.1, 0.0], [0.3, -0.2]], 'normalize': True, 'delta_as': 'complex', 'normalize_kw': True}
         else:
             c = {'kind': 'lanczos', 'spec': spec, 'wrap': None, 'wrap_shift': 0.7, 'n_ortho': 1, 'ortho_dependent': False, 'twice': True,
                  'rerun_same': not evo, 'real_psi0': False,
